@@ -50,6 +50,15 @@ impl Engine for E {
             for t in gen::LIMIT_TAGS {
                 floors.push((t.to_string(), if quick { 20 } else { 160 }));
             }
+            floors.push(("limits.call_depth_interrupt".into(), if quick { 60 } else { 480 }));
+            floors.push(("limits.offset_past_end".into(), if quick { 40 } else { 320 }));
+            for op in 0..10usize {
+                for proto in 4..=7u8 {
+                    if let Some(av) = gen::gate_available(op, proto) {
+                        floors.push((format!("{}.P{}.{}", gen::GATE_NAMES[op], proto, if av { "available" } else { "refused" }), if quick { 3 } else { 24 }));
+                    }
+                }
+            }
             // thorough runs up to 33x the quick cases (fewer when the soft time budget cuts in); floors are 8x
             let f = |k: &str, q: u64, _t: u64| (k.to_string(), if quick { q } else { 8 * q });
             floors.extend([
@@ -71,6 +80,20 @@ impl Engine for E {
                 f("grow.million_budget_ooe", 60, 3_000),
                 f("interrupt.script_agrees.success", 200, 10_000),
                 f("interrupt.script_agrees.energy_exact_after_resume", 150, 7_000),
+                f("depth_interrupt.total_within_limit", 20, 0),
+                f("depth_interrupt.total_over_limit", 30, 0),
+                f("depth_interrupt.total_exactly_limit", 10, 0),
+                f("depth_interrupt.total_limit_plus_one", 10, 0),
+                f("depth_interrupt.limit_hit_after_resume", 20, 0),
+                f("depth_interrupt.second_interrupt_at_bottom", 8, 0),
+                f("edge.v1.entry_read.offset_gt_size", 50, 0),
+                f("edge.v1.entry_read.offset_u32max", 15, 0),
+                f("edge.v1.entry_write.offset_gt_size", 50, 0),
+                f("edge.v1.entry_write.offset_u32max", 30, 0),
+                f("edge.v1.iterator_key_read.offset_gt_size", 40, 0),
+                f("edge.v1.iterator_key_read.offset_u32max", 15, 0),
+                f("edge.v0.write_state.offset_gt0_truncated_at_16k", 40, 0),
+                f("edge.v0.write_state.truncated_at_16k", 60, 0),
                 f("interrupt.resumed", 600, 30_000),
                 f("interrupt.state_updated", 100, 5_000),
                 f("interrupt.state_unchanged", 300, 15_000),
